@@ -166,6 +166,8 @@ func rewardsProfile() Profile {
 	p.Weights[GRedelThenExit] = 3
 	p.Weights[GWeightChangeOut] = 3
 	p.Weights[GRedelIntoUnclaim] = 4
+	p.Weights[KReimport] = 2
+	p.Weights[GRecreateAsset] = 3
 	return p
 }
 
@@ -202,6 +204,7 @@ func takerateProfile() Profile {
 	p.Delays = []int64{0, 0, 0, sec, 7 * day}
 	p.Intervals = []int64{1, sec, 300 * sec, 300 * sec, day}
 	p.ChRates = []string{"1", "1", "0.5", "0.99"}
+	p.Weights[KReimport] = 2
 	return p
 }
 
@@ -213,6 +216,8 @@ func powerProfile() Profile {
 	p.TakeRates = []string{"0", "0", "0.001", "0.5"}
 	p.ChRates = []string{"1", "1", "0.5", "0.99"}
 	p.HugeAmounts = false
+	p.Weights[KReimport] = 2
+	p.Weights[GReimportWhileOut] = 3
 	return p
 }
 
@@ -263,8 +268,12 @@ func init() {
 		Rule: "stateful rapid histories, 'power' profile (alliance ops mixed with native delegate / partial and full undelegate / redelegate, real slashes, jail/unjail, max-validators changes, weight vectors incl. 0, warm-up assets, quiet blocks); oracle = at every block boundary each bonded validator's module stake equals the target recomputed from the boundary state; non-bonded validators untouched by the alliance end-blocker; non-trivial = a boundary with a positive target in a history where a block contained a native op, real slash or jail/unjail; distinct = distinct concrete op list",
 	})
 	register(&Spec{
-		ID:      "C11",
-		Profile: func(tier string) Profile { return tierSteps(powerProfile(), tier) },
+		ID: "C11",
+		Profile: func(tier string) Profile {
+			p := powerProfile()
+			p.HugeAmounts = true // 18-decimal assets: per-token reward indices at the 1e-18 resolution
+			return tierSteps(p, tier)
+		},
 		Oracles: func() []Oracle { return []Oracle{&OracleC11{}} },
 		NonTrivial: func(x *Exec) bool {
 			return x.Has("c11:rebalanced-up-and-down") || x.Has("c11:real-slash-with-module-stake")
